@@ -38,6 +38,7 @@ const (
 type keyStat struct {
 	must, may, never int
 	got, gotAtRet    int
+	gotAtLastRet     int // in the record when the last of several concurrent Shutdown calls returned
 	owner            int // goroutine id, -1 ctl, -2 shared
 	lastRec          [2]int
 	kind             int
@@ -45,7 +46,7 @@ type keyStat struct {
 
 func ownerOf(text string) int {
 	switch {
-	case strings.HasPrefix(text, "ini"), strings.HasPrefix(text, "cal"):
+	case strings.HasPrefix(text, "ini"), strings.HasPrefix(text, "cal"), strings.HasPrefix(text, "idl"), strings.HasPrefix(text, "ctl"):
 		return -1
 	case strings.HasPrefix(text, "sh"):
 		return -2
@@ -100,6 +101,7 @@ func judge(w *world, b *vlib.Batch) {
 		recs []lineRec
 		cls  []lineClass
 		keys []string
+		enab []bool // enabled in every level state possible while it was logged (whatever Shutdown does)
 	}
 	var gs []*gor
 	for _, p := range append([]*producer{w.ctl}, w.prods...) {
@@ -119,6 +121,7 @@ func judge(w *world, b *vlib.Batch) {
 	for gi, g := range gs {
 		g.cls = make([]lineClass, len(g.recs))
 		g.keys = make([]string, len(g.recs))
+		g.enab = make([]bool, len(g.recs))
 		for i, r := range g.recs {
 			nCalls++
 			if r.Ret == 0 {
@@ -138,8 +141,10 @@ func judge(w *world, b *vlib.Batch) {
 				if before {
 					c = clMust
 				}
+				g.enab[i] = true
 			} else {
 				all, some := w.enabledRange(r.Phase, sitePkg(r.Site), siteLvl(r.Site))
+				g.enab[i] = all
 				switch {
 				case !some:
 					c = clNever
@@ -286,6 +291,9 @@ func judge(w *world, b *vlib.Batch) {
 		if w.shutRet == 0 || e.Seq < w.shutRet {
 			st.gotAtRet += int(e.Dup) + 1
 		}
+		if w.shutRetLast == 0 || e.Seq < w.shutRetLast {
+			st.gotAtLastRet += int(e.Dup) + 1
+		}
 		if st.kind == kSubmit && e.Dup > 0 {
 			viol("merged-submission", fmt.Sprintf("tracer submission %q was merged (duplicates=%d)", e.Text, e.Dup), witness{"entry": e})
 		}
@@ -415,6 +423,9 @@ func judge(w *world, b *vlib.Batch) {
 			sig := "lost:mid-run:" + kindName
 			what := "the lines logged after it by the same goroutine did arrive"
 			switch {
+			case sc.ShutCallers > 1 && st.gotAtLastRet >= st.must:
+				sig = "lost:concurrent-shutdown-call-returned-early"
+				what = fmt.Sprintf("%d goroutines called Shutdown concurrently; it was in the record when the last of the calls returned, but not when the first one returned", sc.ShutCallers)
 			case st.got >= st.must:
 				sig = "lost:written-after-shutdown-returned"
 				what = "it was written after Shutdown had returned"
@@ -429,6 +440,53 @@ func judge(w *world, b *vlib.Batch) {
 			}
 			viol(sig, fmt.Sprintf("%q from %s was logged %d times at an enabled level and returned before Shutdown was called, but the adapter had received it only %d times when Shutdown returned; %s",
 				text, siteName(site), st.must, st.gotAtRet, what), det)
+		}
+	}
+
+	// ---- idle points (free-running writer): every enabled line whose call returned
+	// before a stable idle point is in the record before that point
+	idleViol := 0
+	for _, ip := range w.idlePoints {
+		need := map[string]int{}
+		example := map[string]lineRec{}
+		for _, g := range gs {
+			for i, r := range g.recs {
+				if g.keys[i] != "" && g.enab[i] && r.Ret != 0 && r.Ret < ip.Seq && !undecidedTexts[r.Text] {
+					need[g.keys[i]]++
+					example[g.keys[i]] = r
+				}
+			}
+		}
+		have := map[string]int{}
+		nEnt := 0
+		for i, e := range entries {
+			if e.Seq < ip.Seq {
+				nEnt++
+				if entSite[i] >= 0 {
+					have[entKey[i]] += int(e.Dup) + 1
+				}
+			}
+		}
+		var missing []string
+		for k, n := range need {
+			if have[k] < n {
+				missing = append(missing, k)
+			}
+		}
+		if len(missing) > 0 {
+			sort.Slice(missing, func(a, b int) bool { return example[missing[a]].Call < example[missing[b]].Call })
+			k := missing[0]
+			site, text, _ := splitKey(k)
+			var later []adEntry
+			for i, e := range entries {
+				if e.Seq > ip.Seq && entSite[i] >= 0 && entKey[i] == k && len(later) < 2 {
+					later = append(later, e)
+				}
+			}
+			idleViol++
+			viol("stuck:line-waits-for-later-event", fmt.Sprintf("free-running writer: %q from %s was logged at an enabled level and its call had returned, then everything went idle (no goroutine in a log call, adapter not in Write, writer goroutine parked in its wake-up select) with the line not handed to the adapter (%d lines in that state at idle point %q); it only moves when something else is logged or Shutdown is called",
+				text, siteName(site), len(missing), ip.Tag),
+				witness{"idle_point": ip, "logging": example[k], "lines_waiting": len(missing), "adapter_writes_before_idle_point": nEnt, "written_later_as": later})
 		}
 	}
 
@@ -698,6 +756,15 @@ func judge(w *world, b *vlib.Batch) {
 	b.Count("entries_after_shutdown_returned", int64(afterRet))
 	b.Count("level_flip_actions", w.flipActions.Load())
 	b.Count("twin_blocks", w.twinBlocks.Load())
+	b.Count("idle_points_judged", int64(len(w.idlePoints)))
+	b.Count("idle_points_not_reached", int64(w.idleSkipped))
+	b.Count("idle_rounds_line_logged_during_final_write", int64(w.idleRounds))
+	if sc.ShutCallers > 1 {
+		b.Count("cases_concurrent_shutdown_calls", 1)
+		if w.pendingAtShut > 0 {
+			b.Count("cases_concurrent_shutdown_calls_with_lines_pending", 1)
+		}
+	}
 	b.Count("twin_plain_and_submission_arrived_adjacent", int64(twinAdj))
 	b.Count("writer_triggers", w.trigCount.Load())
 	b.Count("adapter_holds", int64(a.holds))
